@@ -359,6 +359,39 @@ def r13_6_propagation(repo: Repo, rep: Report):
     rep.check("R13.6", ok, mm, gf, "is_global_fail_set: own frame or any nested frame", "failure inside a nested call would be missed")
 
 
+def r13_9_learned_substitutions(repo: Repo, rep: Report):
+    rep.rule("R13.9", "a value is substituted for a term only when a whole, asserted path condition is the equality term == constant")
+    m, pc = repo.fn("sevm.Concretization.process_cond")
+    stores = [n for n in body_walk(pc) if isinstance(n, ast.Subscript) and isinstance(n.ctx, ast.Store) and src(n.value) == "self.substitution"]
+    if not stores:
+        raise AnalysisError("process_cond: no substitution store found")
+    for n in stores:
+        st = m.parents[n]
+        gs = guard_set(m, n)
+        key, val = src(n.slice), src(st.value) if isinstance(st, ast.Assign) else "?"
+        sides = {"left": "cond.arg(0)", "right": "cond.arg(1)"}
+        binds = {k: [src(v) for v in find_assign(pc, k)] for k in ("left", "right")}
+        tup = [st2 for st2 in body_walk(pc) if isinstance(st2, ast.Assign) and src(st2.targets[0]) in ("(left, right)", "left, right") and src(st2.value) in ("(cond.arg(0), cond.arg(1))", "cond.arg(0), cond.arg(1)")]
+        ok = "is_eq(cond)" in gs and f"is_bv_value({val})" in gs and {key, val} == {"left", "right"} and (bool(tup) or all(binds[k] == [sides[k]] for k in sides))
+        rep.check("R13.9", ok, m, st, f"process_cond: {src(st)} under {sorted(gs)}", "a substitution is recorded for something else than `term == constant` of the condition itself")
+    # the condition handed in is a whole asserted condition: no recursion into sub-terms (polarity is lost there: a
+    # disjunct under a negation is assumed false, not true), and the only caller passes the condition it asserts
+    inner = [c for c in body_walk(pc) if isinstance(c, ast.Call) and last_attr(c) == "process_cond"]
+    for c in inner:
+        rep.bad("R13.9", m, c, f"process_cond recurses: {src(c)[:80]} under {sorted(guard_set(m, c))[-2:]}", "equalities are learnt from sub-terms of a condition: unless every step preserves polarity (conjuncts only) the table records the opposite of what was assumed, and vm.assert* on a re-read value silently passes or spuriously fails")
+    callers = [(mm, c) for mm in repo.modules.values() for c in ast.walk(mm.tree) if isinstance(c, ast.Call) and last_attr(c) == "process_cond" and mm.qual(c) != "sevm.Concretization.process_cond"]
+    ok = len(callers) == 1 and callers[0][0].qual(callers[0][1]) == "sevm.Path.append" and src(callers[0][1].args[0]) == "cond"
+    rep.check("R13.9", ok, callers[0][0] if callers else m, callers[0][1] if callers else pc, f"process_cond called from {[mm.qual(c) for mm, c in callers]}", "the learner must be fed exactly the conditions that Path.append asserts")
+
+
+def r13_10_shared(repo: Repo, rep: Report):
+    """the failing branch of vm.assert* is created unless `check(not cond)` is unsat: the solver-free `unsat` answers
+    of that check must be sound (shared with C02 R02.2)"""
+    from hsa.rules.c02 import r02_2_solver_free_unsat
+
+    r02_2_solver_free_unsat(repo, rep)
+
+
 def r13_7_shared(repo: Repo, rep: Report):
     """whether an assertion creates a failing branch is decided by Path.check / Exec.check: `unsat` must come from this
     path's own solver state (verdict discipline, shared with C02; fork-copy completeness, shared with C20)"""
@@ -369,4 +402,4 @@ def r13_7_shared(repo: Repo, rep: Report):
     r20_1_fork_copies(repo, rep)
 
 
-RULES = [r13_8_extractor_helpers, r13_7_shared, r13_1_selector_table, r13_2_mk_cond, r13_3_sign_and_arity, r13_4_extractors, r13_5_branching, r13_6_propagation]
+RULES = [r13_8_extractor_helpers, r13_7_shared, r13_1_selector_table, r13_2_mk_cond, r13_3_sign_and_arity, r13_4_extractors, r13_5_branching, r13_6_propagation, r13_9_learned_substitutions, r13_10_shared]
